@@ -85,10 +85,10 @@ META = {
                   'bodies / tracebacks are not modelled (the document is parsed, bodies are skipped).  Monitor: Lean '
                   '(driver) with a Python cross-check of exit code and report counts; the comparison of the real reporter '
                   'output with the Lean rendering of the observed callbacks (C19_output, C19_json) is done in Python on '
-                  'the driver\'s answer.  "The report is the true one" (C19_truth: oracle of the case + failures/ignores of '
-                  'dependencies) is monitored on every trace but proved only through run_status (one_final_report), not '
-                  'against the oracle.  The forwarding system FSys is proved, not replayed against process traces.  Open '
-                  'finding json-thread-stdout-overlap.',
+                  'the driver\'s answer.  "The report is the true one": the part decided by the oracle of the case is '
+                  'proved (C19_report_true_to_oracle); the dependency part (an unmet / ignored-through-dependency report really '
+                  'has a failed / ignored dependency) is monitored on every trace (C19_truth) but not proved.  The forwarding '
+                  'system FSys is proved, not replayed against process traces.',
     'rule': 'runlib random DAGs of 3-8 tasks (all edge kinds, groups), oracle per task (run/up-to-date/error, ignored, '
             'ok/failed/error, how the action fails), --continue on/off, reporter drawn from the five built-ins, runner '
             'serial | thread k=1..4 x schedule policy | process k=2,3; exhaustive tier: every outcome assignment of '
@@ -106,41 +106,7 @@ META = {
 
 
 
-def _overlap_not_nested(trace):
-    """two actions a, b with start(a) < start(b) < end(a) < end(b) in the trace"""
-    pos = {}
-    for i, e in enumerate(trace):
-        if e[0] in ('start', 'end'):
-            pos[(e[0], e[1])] = i
-    tasks = sorted(set(t for (_k, t) in pos))
-    for a in tasks:
-        for b in tasks:
-            if a != b and all((k, t) in pos for k in ('start', 'end') for t in (a, b)):
-                if pos[('start', a)] < pos[('start', b)] < pos[('end', a)] < pos[('end', b)]:
-                    return True
-    return False
-
-
-def sig_json_thread_overlap(witness):
-    """SIGNATURE of the open finding json-thread-stdout-overlap: json reporter, thread runner, the only failed
-    monitors are C19_json (and C19_exit with exit 3 as its consequence), JsonReporter.complete_run raised
-    AttributeError, and the trace shows two actions overlapping without being nested (the history that leaves
-    sys.stdout pointing at a task Writer)"""
-    case = witness.get('case') or {}
-    if witness.get('reporter') != 'json' or case.get('runner') != 'thread':
-        return False
-    failed = set(witness.get('failed_monitors') or [])
-    if 'C19_json' not in failed or not failed <= {'C19_json', 'C19_exit'}:
-        return False
-    if 'C19_exit' in failed and witness.get('exit') != 3:
-        return False
-    probs = ' '.join((witness.get('detail') or {}).get('json_problems') or [])
-    if 'complete_run raised AttributeError' not in probs:
-        return False
-    return _overlap_not_nested(witness.get('trace') or [])
-
-
-SIGNATURES = {'json-thread-stdout-overlap': sig_json_thread_overlap}
+SIGNATURES = {}
 
 _LAST = {}          # output of the real reporter of the run in progress (same process as DoitMain.run)
 
@@ -440,23 +406,6 @@ def failed_monitors(case, obs, ans):
     return failed
 
 
-def _acceptor_noact_limit(case, obs, base_ans):
-    """known incompleteness of the run-model acceptor (Driver/Run.lean, not owned by C19; reported to its builder): with
-    a parallel runner two action-less (group) tasks in flight at the same time may have their results processed in
-    either order, but their start / end marks are not observable and the acceptor's search takes those completions
-    eagerly in worker order.  Recognised narrowly: the next implementation event and every event the model could emit
-    are `success` reports of action-less tasks."""
-    m = case.get('model') or runlib.expand(case)
-    na = m['noAct']
-    k = base_ans.get('matched') or 0
-    nxt = obs['trace'][k:k + 1]
-    exp = [e for alt in (base_ans.get('expected') or []) for e in alt]
-
-    def ok(e):
-        return e[0] == 'success' and isinstance(e[1], int) and e[1] < len(na) and na[e[1]]
-    return case['runner'] != 'serial' and bool(nxt) and ok(nxt[0]) and bool(exp) and all(ok(e) for e in exp)
-
-
 def judge(case, obs, ans, base_ans, st, shrink_left):
     """decision rules for one (case, observation); returns seconds spent shrinking"""
     st.traces += 1
@@ -515,10 +464,8 @@ def judge(case, obs, ans, base_ans, st, shrink_left):
     if base_ans is not None and 'error' not in base_ans:
         if base_ans.get('skipped'):
             st.count('model_search_skipped')
-        limit = (not base_ans.get('accepted')) and _acceptor_noact_limit(case, obs, base_ans)
-        st.count('model:accepted' if base_ans.get('accepted') else
-                 'model:acceptor_limit(completion order of action-less tasks)' if limit else 'model:rejected')
-        if not base_ans.get('accepted') and not base_ans.get('skipped') and not limit:
+        st.count('model:accepted' if base_ans.get('accepted') else 'model:rejected')
+        if not base_ans.get('accepted') and not base_ans.get('skipped'):
             w = make_witness(case, obs, ans)
             w['matched'] = base_ans.get('matched')
             w['expected'] = base_ans.get('expected')
@@ -821,7 +768,7 @@ def replay(ctx, data):
         print('FAILED monitors:', wit['failed_monitors'], wit['detail'])
         return False
     base = runlib.ask_model([(case, obs)])[0]
-    acc = base.get('accepted') or base.get('skipped') or 'error' in base or _acceptor_noact_limit(case, obs, base)
+    acc = base.get('accepted') or base.get('skipped') or 'error' in base
     print('reporter output equals the model:', same, '  run model accepts the trace:', bool(acc))
     if data.get('failed') == 'correspondence' and not (same and acc):
         return False
